@@ -88,7 +88,7 @@ Lemma place_bid_amounts cf lk a s who amt0 wd twa s' a' r :
                r_recv r = conv (c_dd cf) (dp_of lk twa) (a_debt a) (c_dc cf) (a_price a) + r_bonus r) /\
             (r_exh r = true -> r_recv r = a_coll a /\
                r_paid r = conv (c_dc cf) (a_price a) (a_coll a - r_bonus r) (c_dd cf) (dp_of lk twa) /\
-               r_short r = a_debt a - r_paid r /\ 0 <= r_topup r <= r_short r) /\
+               r_topup r = a_debt a - r_paid r /\ 0 <= r_topup r) /\
             r_bonus r = conv (c_dd cf) (dp_of lk twa) (a_bonus a) (c_dc cf) (a_price a)
   end.
 Proof.
@@ -107,7 +107,7 @@ Proof.
   set (exh := negb (q + qb <=? a_coll a)) in *.
   destruct (full || exh) eqn:Hbr.
   - (* closing *)
-    apply obind_ok in H as ([[[[amt1 tot1] s1] short] topup] & Hx & H).
+    apply obind_ok in H as ([[[amt1 tot1] s1] topup] & Hx & H).
     apply obind_ok in H as (L2 & _ & H). apply obind_ok in H as (L3 & _ & H).
     apply obind_ok in H as (L4 & _ & H). apply obind_ok in H as (L5 & _ & H).
     destruct ((tot1 <? 0) || (amt1 <? 0)) eqn:Hneg; [discriminate|].
@@ -116,10 +116,10 @@ Proof.
     + apply obind_ok in Hx as (dal & Hdal & Hx). apply opanic_ok, conv_c_some in Hdal as (Hdal & _ & _).
       destruct (Z.ltb_spec dal 0); [discriminate|]. destruct (Z.ltb_spec (a_debt a - dal) 0); [discriminate|].
       destruct (rsv s) as [rv|]; [|discriminate].
-      apply obind_ok in Hx as (L1 & _ & Hx). injection Hx as <- <- <- <- <-.
-      repeat split; try lia; try congruence;
-        try (destruct ((rv - (a_debt a - dal) >=? 0) && (a_debt a - dal >? 0)); lia).
-    + injection Hx as <- <- <- <- <-. unfold exh in Hexh.
+      destruct (Z.ltb_spec (rv - (a_debt a - dal)) 0); [discriminate|].
+      apply obind_ok in Hx as (L1 & _ & Hx). injection Hx as <- <- <- <-.
+      repeat split; try lia; try congruence.
+    + injection Hx as <- <- <- <-. unfold exh in Hexh.
       destruct (Z.leb_spec (q + qb) (a_coll a)); [|discriminate].
       assert (Hft : full = true) by (destruct full; [reflexivity|discriminate]).
       pose proof (Hf Hft) as Ha. rewrite Ha in Hq.
@@ -204,63 +204,57 @@ Definition op_ok (o : op) : Prop :=
   end.
 
 Definition Inv (cf : acfg) (lk : locked) (f : life) : Prop :=
-  0 <= f_paid f /\ 0 <= f_recv f /\ 0 <= f_top f /\ 0 <= f_short f /\
+  0 <= f_paid f /\ 0 <= f_recv f /\ 0 <= f_top f /\
   match f_a f with
   | Some a => good_auction cf lk a /\ f_paid f + a_debt a = l_target lk /\ f_recv f + a_coll a = l_coll lk /\
-              f_top f = 0 /\ f_short f = 0
+              f_top f = 0
   | None => f_paid f <= l_target lk /\ f_recv f <= l_coll lk /\
-            f_paid f + f_top f + f_short f = l_target lk
+            f_paid f + f_top f = l_target lk
   end.
+
+(* the reserve is only touched in the collateral-exhausted branch, and that branch closes *)
+Lemma topup_zero cf lk a s who amt wd twa s' a' r :
+  place_bid cf lk a s who amt wd twa = Ok (s', a', r) ->
+  (r_exh r = false -> r_topup r = 0 /\ rsv s' = rsv s) /\ (forall b, a' = Some b -> r_exh r = false).
+Proof.
+  intros E. unfold place_bid in E.
+  destruct (amt <=? 0); [discriminate|]. destruct wd; [discriminate|].
+  apply obind_ok in E as (q & _ & E). apply obind_ok in E as (qb & _ & E).
+  destruct (_ || _).
+  - apply obind_ok in E as ([[[? ?] ?] ?] & Hxx & E).
+    apply obind_ok in E as (? & _ & E). apply obind_ok in E as (? & _ & E).
+    apply obind_ok in E as (? & _ & E). apply obind_ok in E as (? & _ & E).
+    destruct ((_ <? 0) || (_ <? 0)); [discriminate|]. apply obind_ok in E as ([? ?] & _ & E).
+    injection E as <- <- <-. cbn. split; [|discriminate].
+    intros Hx. rewrite Hx in Hxx. injection Hxx as _ _ <- <-. auto.
+  - apply obind_ok in E as (? & _ & E). apply obind_ok in E as (? & _ & E).
+    destruct (negb (_ >? dec_of_int _)); [discriminate|]. apply obind_ok in E as (? & _ & E).
+    apply obind_ok in E as (? & _ & E). apply obind_ok in E as (? & _ & E). apply obind_ok in E as (? & _ & E).
+    destruct ((_ <? 0) || (_ <? 0)); [discriminate|]. injection E as <- <- <-. cbn. auto.
+Qed.
 
 Lemma step_inv cf lk f o : good_cfg cf lk -> op_ok o -> Inv cf lk f -> Inv cf lk (step cf lk f o).
 Proof.
-  intros GC Ho (Hp & Hr & Ht & Hs & HI). unfold step.
+  intros GC Ho (Hp & Hr & Ht & HI). unfold step.
   destruct (f_a f) as [a|] eqn:Ea; [|unfold Inv; rewrite Ea; auto].
   assert (HIf : Inv cf lk f) by (unfold Inv; rewrite Ea; auto).
-  destruct HI as (GA & Hd & Hc & Ht0 & Hs0).
+  destruct HI as (GA & Hd & Hc & Ht0).
   destruct o as [who amt wd twa | now pc pd].
   - destruct (place_bid cf lk a (f_s f) who amt wd twa) as [[[s' a'] r]| |] eqn:E;
       try exact HIf.
     pose proof (place_bid_amounts _ _ _ _ _ _ _ _ _ _ _ GC GA Ho E) as (Hpaid & Hrecv & Hrest).
+    pose proof (topup_zero _ _ _ _ _ _ _ _ _ _ _ E) as (Hz & Hpart).
     unfold Inv; cbn. destruct a' as [b|].
     + destruct Hrest as (_ & _ & Hdb & Hdb0 & Hcb & Hbb & Hpb & Hib & Hsb & Heb & _).
-      assert (Hz : r_short r = 0 /\ r_topup r = 0).
-      { unfold place_bid in E. clear - E. (* partial results carry 0 0 *)
-        destruct (amt <=? 0); [discriminate|]. destruct wd; [discriminate|].
-        apply obind_ok in E as (q & _ & E). apply obind_ok in E as (qb & _ & E).
-        destruct (_ || _).
-        - apply obind_ok in E as ([[[[? ?] ?] ?] ?] & _ & E).
-          apply obind_ok in E as (? & _ & E). apply obind_ok in E as (? & _ & E).
-          apply obind_ok in E as (? & _ & E). apply obind_ok in E as (? & _ & E).
-          destruct (_ || _); [discriminate|]. apply obind_ok in E as ([? ?] & _ & E). discriminate.
-        - apply obind_ok in E as (? & _ & E). apply obind_ok in E as (? & _ & E).
-          destruct (negb _); [discriminate|]. apply obind_ok in E as (? & _ & E).
-          apply obind_ok in E as (? & _ & E). apply obind_ok in E as (? & _ & E). apply obind_ok in E as (? & _ & E).
-          destruct (_ || _); [discriminate|]. injection E as _ _ <-. cbn. auto. }
-      destruct Hz as (Hz1 & Hz2). destruct GA.
+      destruct (Hz (Hpart b eq_refl)) as (Hz1 & _). destruct GA.
       repeat split; lia.
     + destruct Hrest as (_ & Hne & He & _).
       destruct (r_exh r) eqn:Hx.
       * destruct (He eq_refl) as (_ & _ & Hsh & Htp). repeat split; lia.
-      * destruct (Hne eq_refl) as (Hpd & _).
-        assert (Hz : r_short r = 0 /\ r_topup r = 0).
-        { unfold place_bid in E. clear - E Hx.
-          destruct (amt <=? 0); [discriminate|]. destruct wd; [discriminate|].
-          apply obind_ok in E as (q & _ & E). apply obind_ok in E as (qb & _ & E).
-          destruct (_ || _).
-          - apply obind_ok in E as ([[[[? ?] ?] ?] ?] & Hxx & E).
-            apply obind_ok in E as (? & _ & E). apply obind_ok in E as (? & _ & E).
-            apply obind_ok in E as (? & _ & E). apply obind_ok in E as (? & _ & E).
-            destruct (_ || _); [discriminate|]. apply obind_ok in E as ([? ?] & _ & E).
-            injection E as _ <-. cbn in Hx. rewrite Hx in Hxx. injection Hxx as _ _ _ <- <-. cbn. auto.
-          - apply obind_ok in E as (? & _ & E). apply obind_ok in E as (? & _ & E).
-            destruct (negb _); [discriminate|]. apply obind_ok in E as (? & _ & E).
-            apply obind_ok in E as (? & _ & E). apply obind_ok in E as (? & _ & E). apply obind_ok in E as (? & _ & E).
-            destruct (_ || _); [discriminate|]. discriminate. }
-        destruct Hz. repeat split; lia.
+      * destruct (Hne eq_refl) as (Hpd & _). destruct (Hz eq_refl) as (Hz1 & _). repeat split; lia.
   - unfold Inv; cbn. pose proof (tick_amounts cf lk now pc pd a) as (T1 & T2 & T3).
     pose proof (tick_good cf lk now pc pd a GC GA Ho) as GT.
-    split; [lia|]. split; [lia|]. split; [lia|]. split; [lia|].
+    split; [lia|]. split; [lia|]. split; [lia|].
     split; [exact GT|]. lia.
 Qed.
 
@@ -273,18 +267,19 @@ Qed.
 Lemma totals cf lk now pc pd a0 s ops :
   good_cfg cf lk -> 0 <= l_target lk -> 0 <= l_coll lk -> tick_in_ok pc ->
   activate cf lk now pc pd = Ok a0 -> Forall op_ok ops ->
-  let f := run cf lk (mkLife s (Some a0) 0 0 0 0) ops in
+  let f := run cf lk (mkLife s (Some a0) 0 0 0) ops in
   0 <= f_paid f <= l_target lk /\ 0 <= f_recv f <= l_coll lk /\
   match f_a f with
-  | Some a => f_paid f + a_debt a = l_target lk /\ f_recv f + a_coll a = l_coll lk /\ 0 <= a_debt a /\ 0 <= a_coll a
-  | None => f_paid f + f_top f + f_short f = l_target lk /\ 0 <= f_top f /\ 0 <= f_short f
+  | Some a => f_paid f + a_debt a = l_target lk /\ f_recv f + a_coll a = l_coll lk /\ 0 <= a_debt a /\ 0 <= a_coll a /\
+              f_top f = 0
+  | None => f_paid f + f_top f = l_target lk /\ 0 <= f_top f
   end.
 Proof.
   intros GC Ht Hc Hpc Ea Hops f.
   destruct (activate_good _ _ _ _ _ _ GC Ht Hc Hpc Ea) as (GA & Hd & Hcl & _).
-  assert (HI : Inv cf lk (mkLife s (Some a0) 0 0 0 0)) by (unfold Inv; cbn; split; [lia|]; split; [lia|]; split; [lia|]; split; [lia|]; split; [exact GA|]; lia).
-  pose proof (run_inv cf lk ops GC Hops _ HI) as (Hp & Hr & Htp & Hs & HF). fold f in Hp, Hr, Htp, Hs, HF.
+  assert (HI : Inv cf lk (mkLife s (Some a0) 0 0 0)) by (unfold Inv; cbn; split; [lia|]; split; [lia|]; split; [lia|]; split; [exact GA|]; lia).
+  pose proof (run_inv cf lk ops GC Hops _ HI) as (Hp & Hr & Htp & HF). fold f in Hp, Hr, Htp, HF.
   destruct (f_a f) as [a|].
-  - destruct HF as (GA' & H1 & H2 & _). destruct GA'. repeat split; lia.
+  - destruct HF as (GA' & H1 & H2 & H3). destruct GA'. repeat split; lia.
   - destruct HF as (H1 & H2 & H3). repeat split; lia.
 Qed.
